@@ -35,6 +35,10 @@ def spec():
             "/d": {"get": {"operationId": "default_content", "responses": {"200": ok, "default": gen.json_resp("Err", desc="err")}}},
             "/e": {"delete": {"operationId": "no_content", "responses": {"204": {"description": "gone"}}}},
             "/h": {"get": {"operationId": "declared_unregistered", "responses": {"200": ok, "499": {"description": "client closed"}, "520": {"description": "origin error"}, "599": {"description": "timeout"}}}},
+            "/s": {"get": {"operationId": "stream_events", "responses": {"200": {"description": "ok", "content": {"text/event-stream": {"schema": {"type": "string"}}}},
+                                                                         "404": {"description": "nf"}, "503": {"description": "unavailable"}}}},
+            "/t": {"get": {"operationId": "stream_bytes", "responses": {"200": {"description": "ok", "content": {"application/octet-stream": {"schema": {"type": "string", "format": "binary"}}}},
+                                                                        "429": {"description": "slow down"}, "default": {"description": "err"}}}},
             "/g": {"post": {"operationId": "two_success", "responses": {"200": ok, "201": gen.json_resp("Err"), "202": {"description": "acc"}, "409": {"description": "conflict"}, "503": {"description": "unavailable"}}}},
         },
         schemas={"Item": ITEM, "Err": ERR},
@@ -51,7 +55,8 @@ def spec_redirect():
 
 SPECS = {"cl06": spec, "cl06r": spec_redirect}
 OP_PKG = {"redirect_declared": "cl06r"}
-OPS = ["only2xx", "declared_unregistered", "declared_errors", "default_nocontent", "default_content", "no_content", "redirect_declared", "two_success"]
+OPS = ["only2xx", "declared_unregistered", "declared_errors", "default_nocontent", "default_content", "no_content", "redirect_declared", "two_success",
+       "stream_events", "stream_bytes"]
 
 
 def root_dir():
@@ -69,6 +74,16 @@ class Resp:
 
     def json(self):
         return dict(BODY)
+
+    async def aiter_lines(self):
+        return
+        yield ""  # pragma: no cover
+
+    async def aiter_bytes(self):
+        return
+        yield b""  # pragma: no cover
+
+    aiter_text = aiter_lines
 
     # httpx.Response semantics (httpx/_models.py): is_informational 1xx, is_success 2xx, is_redirect 3xx,
     # is_client_error 4xx, is_server_error 5xx, is_error 4xx-5xx
@@ -125,7 +140,15 @@ def call(instrumented, op, status, bundled, empty=False):
         t = Stub()
     c = ep.DefaultClient(t, "http://x")
     try:
-        v = drive(getattr(c, op)())
+        res = getattr(c, op)()
+        if hasattr(res, "__anext__"):
+            # a streaming operation is an async generator: the request is made, and an error raised, when it is iterated
+            try:
+                drive(res.__anext__())
+            except StopAsyncIteration:
+                pass
+            return ("returned", "AsyncIterator")
+        v = drive(res)
         return ("returned", type(v).__name__)
     except exc.HTTPError as e:
         return ("raised", True, isinstance(e, exc.ClientError), isinstance(e, exc.ServerError),
@@ -183,6 +206,73 @@ def mk(op, bundled):
     return StatusOb(op, bundled)
 
 
+# ------------------------------------------------------------------ shared-core alias classes
+def k_alias_base(P, code):
+    """the alias class ExceptionsEmitter writes for a shared core (union of the registry) for one status code"""
+    ee = importlib.import_module(P.__name__ + ".emitters.exceptions_emitter")
+    rc = importlib.import_module(P.__name__ + ".context.render_context")
+    hsc = importlib.import_module(P.__name__ + ".core.http_status_codes")
+    em = ee.ExceptionsEmitter(core_package_name="core", overall_project_root="/proj")
+    ctx = rc.RenderContext(core_package_name="core", package_root_for_generated_code="/proj/core", overall_project_root="/proj")
+    ctx.set_current_file("/proj/core/exception_aliases.py")
+    text, names = em._generate_for_codes([code], ctx)
+    return (text, hsc.get_exception_class_name(code))
+
+
+class AliasBase(Obligation):
+    functions = ["pyopenapi_gen.emitters.exceptions_emitter:ExceptionsEmitter._generate_for_codes", "pyopenapi_gen.core.http_status_codes:get_exception_class_name",
+                 "pyopenapi_gen.core.http_status_codes:is_client_error", "pyopenapi_gen.core.http_status_codes:is_server_error"]
+
+    def __init__(self):
+        self.name = "shared_core_alias_base"
+        self.bounds = {"status": "symbolic int 400..599"}
+
+    def make_inputs(self, e):
+        return {"code": mk_sym_int("code", 400, 599)}
+
+    def _I(self):
+        hook.install()
+        import sxi_pyopenapi_gen as P  # noqa
+
+        return P
+
+    def run_sym(self, inp):
+        from symx.explore import call_catching
+
+        return call_catching(k_alias_base, self._I(), inp["code"])
+
+    def run_real(self, inp):
+        import pyopenapi_gen as P
+        from symx.explore import call_catching
+
+        return call_catching(k_alias_base, P, inp["code"])
+
+    def normalise(self, r):
+        from symx.core import is_sym
+
+        return tuple(x.simp() if is_sym(x) else x for x in r) if isinstance(r, tuple) else r
+
+    def prop(self, inp, r):
+        from symx.core import SymStr, is_sym
+        from symx.explore import Raised
+
+        if isinstance(r, Raised):
+            return False
+        text, name = r
+        st = inp["code"]
+        base = "ClientError" if (st < 500) else "ServerError"
+        header = SymStr.lift("class ") + name + "(" + base + "):" if is_sym(name) else "class " + name + "(" + base + "):"
+        t = SymStr.lift(text) if not is_sym(text) else text
+        return bool(t.contains_expr(header))
+
+    def describe_violation(self, inp, r):
+        return "shared-core alias for status %r: expected 'class <Name>(%s)' in %r" % (inp["code"], "ClientError for 4xx / ServerError for 5xx", self.normalise(r))
+
+
+def mk_alias_base():
+    return AliasBase()
+
+
 def prepare(rep=None):
     root = gen.workdir("c06", fresh=True)
     errs = {}
@@ -215,6 +305,7 @@ def run(tier, rep, only=None):
                                    + (p.stderr.strip().splitlines() or ["?"])[-1][:300]})
             bad.add(pkg)
     specs = [(MOD, "mk", (op, b)) for op in OPS for b in (False, True) if OP_PKG.get(op, "cl06") not in bad]
+    specs.append((MOD, "mk_alias_base", ()))
     if only:
         specs = [s for s in specs if only in explore.build(s).name]
     res = explore.run_all(specs, split=10**9)
@@ -234,6 +325,12 @@ def replay(path):
 
     v = json.load(open(path))["violation"]
     root, errs = prepare()
+    if v["obligation"] == "shared_core_alias_base":
+        ob = AliasBase()
+        r = ob.run_real(v["inputs"])
+        ok = bool(ob.prop(v["inputs"], r))
+        print("replay %s %s -> holds=%s" % (v["obligation"], v["inputs"], ok))
+        return 0 if ok else 1
     if not v["obligation"].startswith("status/"):
         import subprocess
 
